@@ -11,6 +11,7 @@ import (
 	"sync"
 
 	"github.com/creachadair/jrpc2/channel"
+	"github.com/creachadair/jrpc2/internal/vhook"
 )
 
 // A Client is a JSON-RPC 2.0 client. The client sends requests and receives
@@ -83,6 +84,7 @@ func (c *Client) accept(ch receiver) error {
 		if !isUninteresting(err) {
 			c.log("Decoding error: %v", err)
 		}
+		vhook.Point("cli.fail.lock", c, err)
 		c.mu.Lock()
 		defer c.stopLocked(err)()
 		c.mu.Unlock()
@@ -93,6 +95,7 @@ func (c *Client) accept(ch receiver) error {
 	c.done.Add(1)
 	go func() {
 		defer c.done.Done()
+		vhook.Point("cli.deliver.lock", c, bits)
 		c.mu.Lock()
 		defer c.mu.Unlock()
 		for _, rsp := range in {
@@ -125,6 +128,7 @@ func (c *Client) handleRequestLocked(msg *jmessage) {
 			defer c.done.Done()
 			bits := c.scall(ctx, msg)
 
+			vhook.Point("cli.cbreply.lock", c, string(msg.ID))
 			c.mu.Lock()
 			defer c.mu.Unlock()
 			if c.err != nil {
@@ -149,6 +153,7 @@ func (c *Client) deliverLocked(rsp *jmessage) {
 
 	id := string(fixID(rsp.ID))
 	p := c.pending[id]
+	vhook.Event("cli.deliver", c, id, p != nil)
 	if p == nil {
 		c.log("Discarding response for unknown ID %q", id)
 		return
@@ -173,10 +178,12 @@ func (c *Client) req(ctx context.Context, method string, params any) (*jmessage,
 		return nil, err
 	}
 
+	vhook.Point("cli.req.lock", c, method)
 	c.mu.Lock()
 	defer c.mu.Unlock()
 	id := json.RawMessage(strconv.FormatInt(c.nextID, 10))
 	c.nextID++
+	vhook.Event("cli.allocid", c, string(id))
 	return &jmessage{
 		ID: id,
 		M:  method,
@@ -224,13 +231,16 @@ func (c *Client) send(ctx context.Context, reqs jmessages) ([]*Response, error) 
 		}
 	}
 
+	vhook.Point("cli.send.lock", c, len(reqs))
 	c.mu.Lock()
 	defer c.mu.Unlock()
 	if c.err != nil {
+		vhook.Event("cli.refused", c)
 		return nil, c.err
 	}
 	c.log("Outgoing batch: count=%d, bytes=%d", len(reqs), len(b))
 	if err := c.ch.Send(b); err != nil {
+		vhook.Event("cli.sendfail", c)
 		return nil, err
 	}
 
@@ -241,6 +251,7 @@ func (c *Client) send(ctx context.Context, reqs jmessages) ([]*Response, error) 
 		c.pending[p.id] = p
 		go c.waitComplete(pctxs[i], p.id, p)
 	}
+	vhook.Event("cli.sent", c, len(pends))
 	return pends, nil
 }
 
@@ -251,6 +262,7 @@ func (c *Client) send(ctx context.Context, reqs jmessages) ([]*Response, error) 
 func (c *Client) waitComplete(pctx context.Context, id string, p *Response) {
 	<-pctx.Done()
 	cleanup := func() {}
+	vhook.Point("cli.waitcomplete.lock", c, id)
 	c.mu.Lock()
 	defer func() {
 		c.mu.Unlock()
@@ -264,6 +276,7 @@ func (c *Client) waitComplete(pctx context.Context, id string, p *Response) {
 	err := pctx.Err()
 	c.log("Context ended for id %q, err=%v", id, err)
 	delete(c.pending, id)
+	vhook.Event("cli.timeout", c, id)
 
 	var jerr *Error
 	if c.err != nil && !isUninteresting(c.err) {
@@ -378,6 +391,7 @@ func (c *Client) Notify(ctx context.Context, method string, params any) error {
 
 // Close shuts down the client, terminating any pending in-flight requests.
 func (c *Client) Close() error {
+	vhook.Point("cli.close.lock", c)
 	c.mu.Lock()
 	defer c.stopLocked(errClientStopped)()
 	c.mu.Unlock()
@@ -422,6 +436,7 @@ func (c *Client) stopLocked(err error) func() {
 
 	c.err = err
 	c.ch = nil
+	vhook.Event("cli.stop", c, err, len(c.pending))
 	return func() { c.shook(c, err) }
 }
 
